@@ -470,6 +470,13 @@ theorem translated_mrInitBufferBody (σ : Env) :
       if σ "wireMsg.Acknowledged" = 0 then [("r.deliverMessage", [σ "wireMsg.Message"])] else [] := by
   by_cases h : σ "wireMsg.Acknowledged" = 0 <;> minigo_simp [Trans.mrInitBufferBody, h]
 
+
+/-- the receiver's deliverMessage, translated: the subscribers' notifier is called exactly once per message, whatever it
+returns (a failing subscriber does not cause a second delivery to the others) -/
+theorem translated_mrDeliverMessage (σ : Env) :
+    obs Trans.mrDeliverMessage σ = ⟨[("r.notifier", [σ "msg"])], none, false⟩ := by
+  by_cases h : σ "r.notifier#0" = 0 <;> minigo_simp [Trans.mrDeliverMessage, h]
+
 end Translated
 
 theorem closure_unchanged : GeneratedClo.C10 = ExpectedClo.C10 := by rfl
